@@ -19,7 +19,9 @@ open Proto Pdf
              op = A<xs> (add_events) | R (reset);  ERR = constructor raises
       ttrials <box|gauss> <edges> <ts> <te> <sigma> <erfx> <erfy> <times>*  -> pd list per trial (one object)
       gcache <cacheOn 0|1> <trial ids> (<raw_k> <norm_k>)*       -> pd list per evaluation (MultiDimGridPDF pd cache)
+      gmcache <cacheOn> <k:mask,…> (<raw_k> <norm_k>)*           -> pd list per request (mask `*` = get_pd, 0/1 string = evt_mask)
       pprod  <b1> <b2> <ops: string of E|L|R>                  -> list per op (PDFProduct on two internal arrays)
+      tmulti <edges> <ts per source> <te per source> <times> <src_idxs> <evt_idxs>  -> pd per value (source loop)
       tstate2 <ts list> <te list> <edges> <prof> <op>*         -> what get_pd returns at each G (fixed code)
              op = L<edges> | Q<k> | X<k> (profile mutated outside) | M<edges> (interval array replaced
                   behind the PDF) | I<times> (initialize_for_new_trial) | G (get_pd)
@@ -135,9 +137,32 @@ def answer (line : String) : String :=
       let raw : Nat → List Float := fun k => tab.getD (2 * k) []
       let norm : Nat → List Float := fun k => tab.getD (2 * k + 1) []
       String.intercalate " " ((gRun (gEval (pB on) raw norm) ⟨none, none⟩ (pList pN ids)).map (fListD fF))
+  | "gmcache" :: on :: reqs :: tabs =>
+      -- reqs: comma separated `k:mask`, mask = `*` (all values, get_pd) or a 0/1 string (evt_mask)
+      let tab : List (List Float) := tabs.map (pList pF)
+      let raw : Nat → List Float := fun k => tab.getD (2 * k) []
+      let norm : Nat → List Float := fun k => tab.getD (2 * k + 1) []
+      let rq : List (Nat × Option (List Bool)) := (reqs.splitOn ",").map (fun t =>
+        match t.splitOn ":" with
+        | [k, m] => (k.toNat!, if m == "*" then none else some (m.toList.map (· == '1')))
+        | _ => (0, none))
+      let nan : Float := 0.0 / 0.0
+      String.intercalate " " ((gmRun true (pB on) raw norm ⟨none, none⟩ rq).map
+        (fun l => fListD fF (l.map (fun o => o.getD nan))))
   | ["pprod", b1, b2, ops] =>
       let ops : List POp := (ops.toList.map (fun c => if c == 'E' then POp.evalProduct else if c == 'L' then POp.readLeft else POp.readRight))
       String.intercalate " " ((pRun pStep ⟨pList pF b1, pList pF b2⟩ ops).map (fListD fF))
+  | ["tmulti", es, tss, tes, times, sidx, eidx] =>
+      -- box profile per source k: window (tss[k], tes[k]); real src_evt_idxs
+      let ivs := pairs es
+      let (tss, tes) := (pList pF tss, pList pF tes)
+      let win : Nat → Float × Float := fun k => (tss.getD k 0.0, tes.getD k 0.0)
+      let Sk : Nat → Option Float := fun k => timeS (boxInt (win k).1 (win k).2) ivs (win k).1 (win k).2
+      match resolveVals (pList pF times) (pList pN sidx) (pList pN eidx) with
+      | none => "ERR"
+      | some vals =>
+        if (List.range tss.length).any (fun k => (Sk k).isNone) then "ERR"
+        else fListD fF (calcPdMulti (fun k => boxVal (win k).1 (win k).2) (fun k => (Sk k).getD 0.0) ivs tss.length vals)
   | "tstate2" :: tss :: tes :: es :: p :: ops =>
       let (tss, tes) := (pList pF tss, pList pF tes)
       let table := boxTable tss tes
